@@ -132,7 +132,20 @@ class Model:
             ct, cv = self.C(t[1])
             at, av = self.E(t[2])
             bt, bv = self.E(t[3])
-            return '#IF(%s)(%s,%s)' % (ct, at, bt), av if cv else bv
+            d = t[4] if t[4:] else '('
+            if d != '(' and ('{' in at + bt or '[' in at + bt):
+                d = '('
+            if top_level_comma(at) or top_level_comma(bt):
+                # only parentheses protect a comma inside a string parameter
+                raise Unsupported('unprotected comma in an #IF branch')
+            return '#IF(%s)%s%s,%s%s' % (ct, d, at, bt, {'(': ')', '[': ']', '{': '}'}[d]), av if cv else bv
+        if k == 'mapi':
+            # #MAP nested in an integer parameter: values are integer literals
+            et, ev = self.E(t[1])
+            d = t[4]
+            pairs = dict((kk, vv) for kk, vv in t[3])
+            body = ','.join([str(t[2])] + ['%d:%d' % (kk, vv) for kk, vv in t[3]])
+            return '#MAP(%s)%s%s%s' % (et, d, body, {'(': ')', '[': ']', '{': '}'}[d]), pairs.get(ev, t[2])
         if k == 'fld':
             if t[2:] and t[2]:
                 return '{mode[%s]}' % t[1], {'base': self.base, 'case': self.case}[t[1]]
@@ -221,7 +234,16 @@ class Model:
             parts = [self.S(x) for x in t[1:]]
             return ''.join(p[0] for p in parts), ''.join(p[1] for p in parts)
         if k == 'eval':
+            pre = ''
+            if t[5:] and t[5]:
+                # a #LET nested at the start of the parenthesised parameter: macros are expanded before replacement
+                # fields are substituted, so the expression reads the new value
+                _, name, e1 = t[5]
+                e1t, e1v = self.E(e1)
+                self.vars[name] = e1v
+                pre = '#LET(%s=%s)' % (name, e1t)
             et, ev = self.E(t[1])
+            et = pre + et
             base, width = t[2], t[3]
             if base == 2:
                 out = '{:0{}b}'.format(ev, width)
@@ -733,7 +755,10 @@ class Gen:
             return ['peek', self.addr() if r.random() < 0.7 else self.E(depth - 1)]
         if k < 0.92:
             return ['evali', self.E(depth - 1)]
-        return ['ifi', self.C(depth - 1), self.E(depth - 1), self.E(depth - 1)]
+        if k < 0.96:
+            return ['ifi', self.C(depth - 1), self.E(depth - 1), self.E(depth - 1), r.choice('(([{{')]
+        return ['mapi', self.E(depth - 1) if r.random() < 0.5 else ['lit', r.randrange(0, 5), 'd'], r.randrange(0, 100),
+                [[kk, r.randrange(0, 1000)] for kk in sorted(r.sample(range(6), r.randrange(0, 4)))], r.choice('([{{')]
 
     def C(self, depth):
         r = self.rng
@@ -939,4 +964,9 @@ class Gen:
             return ['def', name, flags, iparams, sparams, body]
         if k < 0.6:
             return ['while', 'w', r.randrange(0, 5), self.S(1)]
+        if k < 0.64:
+            # top level only: a state change nested inside a numeric parameter, read by a field later in the same parameter
+            name = r.choice(('a', 'b', 'count', 'x1'))
+            e2 = ['bin', r.choice('+*-'), ['var', name], self.E(depth - 2), False]
+            return ['eval', e2, r.choice((10, 10, 16)), r.choice((1, 1, 4)), 'paren', ['let', name, self.lit(0, 999)]]
         return self.S(depth)
